@@ -6,7 +6,6 @@ import (
 	"io"
 	"os"
 
-	"github.com/ohler55/ojg/sen"
 	"github.com/ohler55/slip"
 	"github.com/ohler55/slip/pkg/cl"
 	"github.com/ohler55/slip/pkg/flavors"
@@ -67,7 +66,7 @@ func (f *Each) Call(s *slip.Scope, args slip.List, depth int) (result slip.Objec
 	}
 	caller := cl.ResolveToCaller(s, args[1], depth)
 
-	sen.MustParseReader(r, func(j any) bool {
+	mustParseSENReader(r, func(j any) bool {
 		bg := flavor.MakeInstance().(*flavors.Instance)
 		bg.Any = j
 		_ = caller.Call(s, slip.List{bg}, depth)
